@@ -1,8 +1,10 @@
 package chainsim
 
 import (
+	"context"
 	"fmt"
 	"strings"
+	"time"
 
 	"github.com/LiskHQ/lisk-engine/pkg/blockchain"
 	"github.com/LiskHQ/lisk-engine/pkg/consensus"
@@ -11,6 +13,7 @@ import (
 
 	"verif/sim/refmodel"
 	"verif/sim/simkit"
+	"verif/sim/simrt"
 )
 
 // ForkChoiceMonitor carries the oracles of C07 on the histories the simulated network (with its adversary) produces:
@@ -240,4 +243,86 @@ func (f *ForkChoiceMonitor) OnByzantineBlock(b *blockchain.Block) {
 		f.comparePair(o, h)
 	}
 	f.seen[h.Generator] = append(list, h)
+}
+
+// StartProbes adds a peer that, every `every` of simulated time, sends one node a crafted relative of its own tip: same
+// height, parent and maxHeightPrevoted by the tip's generator (double forging) or by another validator (tie-break
+// candidate), in the current slot or an earlier one; the same block with a larger maxHeightPrevoted, or a larger height
+// on another parent (better chain); a lower height (discard). The blocks are signed by the right keys and mostly not
+// valid successors of anything: what is under test is the classification the node makes before it validates.
+func (f *ForkChoiceMonitor) StartProbes(every time.Duration) {
+	var tick func()
+	tick = func() {
+		f.probe()
+		f.S.At(every, "fork choice probe", tick)
+	}
+	f.S.At(every, "fork choice probe", tick)
+}
+
+func (f *ForkChoiceMonitor) probe() {
+	t := f.W.T
+	var ups []*Node
+	for _, n := range f.S.Nodes {
+		if n.Up && !n.IsAdversary && n.Tip().Height >= 2 {
+			ups = append(ups, n)
+		}
+	}
+	if len(ups) == 0 {
+		return
+	}
+	n := ups[simkit.Int(t, "fcnode", 0, len(ups)-1)]
+	tipBlock := n.Chain.LastBlock()
+	tip := tipBlock.Header
+	c := cloneBlock(tipBlock)
+	signer := f.validator(tip.GeneratorAddress)
+	now := uint32(simrt.C.NowTrue().Add(n.Skew).Unix())
+	kind := simkit.Int(t, "fckind", 0, 6)
+	name := ""
+	switch kind {
+	case 0:
+		name = "same-generator-duplicate-now"
+		c.Header.Timestamp = now
+	case 1, 2:
+		name = "other-generator-duplicate-now"
+		o := f.W.Vals[simkit.Int(t, "fcother", 0, len(f.W.Vals)-1)]
+		if string(o.Address) == string(tip.GeneratorAddress) {
+			return
+		}
+		signer = o
+		c.Header.GeneratorAddress = o.Address
+		c.Header.Timestamp = now
+	case 3:
+		name = "other-generator-duplicate-earlier-slot"
+		o := f.W.Vals[simkit.Int(t, "fcother", 0, len(f.W.Vals)-1)]
+		if string(o.Address) == string(tip.GeneratorAddress) {
+			return
+		}
+		signer = o
+		c.Header.GeneratorAddress = o.Address
+		c.Header.Timestamp = tip.Timestamp - f.W.P.BlockTime
+	case 4:
+		name = "same-height-larger-maxHeightPrevoted"
+		c.Header.MaxHeightPrevoted = tip.MaxHeightPrevoted + 1
+		c.Header.Timestamp = now
+	case 5:
+		name = "larger-height-other-parent"
+		c.Header.Height = tip.Height + uint32(simkit.Int(t, "fcup", 1, 2))
+		c.Header.PreviousBlockID = flip(tip.PreviousBlockID)
+		c.Header.Timestamp = now
+	default:
+		name = "lower-height"
+		c.Header.Height = tip.Height - 1
+		c.Header.Timestamp = now
+	}
+	if signer == nil {
+		return
+	}
+	c.Header.Sign(f.W.P.ChainID, signer.GenPriv)
+	simkit.Fault("crafted_fork_choice_probe_" + name)
+	payload := c.Encode()
+	f.S.Step(n, "fork choice probe "+name, func() {
+		if n.Conn.VerifValidate(context.Background(), consensus.P2PEventPostBlock, payload) == p2p.ValidationAccept {
+			n.Conn.VerifHandleEvent("peer-probe", consensus.P2PEventPostBlock, payload)
+		}
+	})
 }
